@@ -320,6 +320,51 @@ func walDecodeRules(c *Ctx) {
 			r, ok := in.(*ssa.Return)
 			return ok && pathOf(r.Results[0]) != "nil"
 		}, G("proto.Unmarshal == nil", IsNil(`^call:github\.com/gogo/protobuf/proto\.Unmarshal\(`)), G("WALFromProto error == nil", IsNil(`^call:consensus\.WALFromProto\(.*\)#1$`)))
+		// each of the three reads (crc, length, data) has its own error test before a message can be returned
+		nReads := 0
+		allInstrs(fn, false, func(_ *ssa.Function, in ssa.Instruction) {
+			cl, ok := in.(*ssa.Call)
+			if !ok || calleeNameNoPath(&cl.Call) != "iface:(io.Reader).Read" {
+				return
+			}
+			nReads++
+			tested := false
+			for _, b := range fn.Blocks {
+				iff, ok := b.Instrs[len(b.Instrs)-1].(*ssa.If)
+				if !ok {
+					continue
+				}
+				bo, ok := iff.Cond.(*ssa.BinOp)
+				if !ok {
+					continue
+				}
+				ex, ok := bo.X.(*ssa.Extract)
+				if !ok || ex.Tuple != ssa.Value(cl) || ex.Index != 1 {
+					continue
+				}
+				// the message-returning exit must not be reachable through the error edge
+				errEdge := edge{b, b.Succs[0]}
+				if bo.Op.String() == "==" {
+					errEdge = edge{b, b.Succs[1]}
+				}
+				rm := map[edge]bool{}
+				for _, s2 := range b.Succs {
+					if (edge{b, s2}) != errEdge {
+						rm[edge{b, s2}] = true
+					}
+				}
+				w := &Walker{P: c.P, Removed: rm}
+				_, found := w.Reach(fn, b, len(b.Instrs)-1, func(x ssa.Instruction) bool {
+					r, ok := x.(*ssa.Return)
+					return ok && pathOf(r.Results[0]) != "nil"
+				})
+				if !found {
+					tested = true
+				}
+			}
+			c.Check("G", fmt.Sprintf("%s/read #%d (%s) is followed by its own error test before a message can be returned", fnName(fn), nReads, clip(pathOf(cl.Call.Args[0]), 40)), tested, cl.Pos(), 1, "")
+		})
+		c.Check("G", fnName(fn)+"/three reads per frame (crc, length, data)", nReads == 3, fn.Pos(), nReads, "")
 		// failures: EOF only from the first read; everything else DataCorruptionError
 		nEOF, nCorrupt, nOther := 0, 0, 0
 		for _, in := range findInstrs(fn, AnyReturn()) {
